@@ -219,6 +219,13 @@ func (p *c07) inputs(tier string, seed int64, idx int) []string {
 		// (three million pieces of one concatenated argument: 9 MB, complete and cut off)
 		chain := "x:a " + strings.Repeat("''+", 3000000)
 		ins = append(ins, chain+"'';", chain, "x:a "+strings.Repeat("\"b\" + ", 10001)+"\"c\";", "x:a "+strings.Repeat("\"b\" + ", 9990)+"\"c\";")
+		// multi-line strings whose opening quote stands far to the right, with continuation lines of every length
+		// around that column (blanks, tabs, both)
+		for _, col := range []int{7, 8, 9, 56, 62, 63, 64, 65, 66, 72, 100, 128, 255, 256, 257, 1000, 5000} {
+			for _, ind := range []string{strings.Repeat(" ", col+8), strings.Repeat(" ", col), strings.Repeat(" ", col/2), strings.Repeat("\t", col/8+1), strings.Repeat("\t", col/8) + strings.Repeat(" ", col%8+1)} {
+				ins = append(ins, strings.Repeat(" ", col)+"x:a \"first\n"+ind+"second\n"+ind+"\";", strings.Repeat(" ", col)+"x:a \"first\n"+ind+"second")
+			}
+		}
 		return append(ins, c07AfterLastToken()...)
 	}
 	idx--
